@@ -58,6 +58,10 @@ def m1(ctx):
                 if not (is_const(a[0], 0) and is_const(a[1], 1)):
                     ctx.violate(TRY, p, 'try_lock CAS is not false -> true', at=o['ev'].at)
                 okr = r is not None and r[0] == 'call' and r[2] == 'std::result::Result::is_ok' and contains(r[3], o['ev'].val)
+                if not okr and r is not None and r[0] == 'const' and r[1] == 'bool':
+                    # `matches!(cas, Ok(_))` / `match cas { Ok(_) => true, Err(_) => false }`: a branch on the CAS result
+                    brs = [e for e in evs if e.name == 'BR' and e.data['label'] == 'cas' and contains(e.data['val'], o['ev'].val)]
+                    okr = bool(brs) and (brs[-1].data['outcome'] == 'Ok') == (r[2] == '1')
                 if not okr:
                     ctx.violate(TRY, p, 'try_lock does not report success exactly when the CAS succeeded: %s' % fmt(r))
             elif o['m'] == 'swap':
@@ -352,6 +356,86 @@ def m5(ctx):
                                 bounded = True
         if not has_cond and not bounded:
             ctx.violate(SPIN, None, 'spin_cond contains an unbounded loop that never re-tests the condition (blocks %s): lock() would not succeed once the holder leaves' % sorted(comp)[:6], at=s.blocks[sorted(comp)[0]]['term'].get('at'), sig='blind-loop')
+
+
+@rule('M7', ['C17', 'C06'], 'the retry counts of spin_cond stay positive: a round of the outer loop can never skip every re-test of the condition', skip_std_mutex=True)
+def m7(ctx):
+    s = need(ctx, SPIN)
+    if s is None:
+        return
+    ctx.instance(SPIN)
+    blocks = s.blocks
+
+    def root(o, depth=0):
+        """follow plain copies of temporaries back to the local they copy"""
+        if o.get('k') == 'const':
+            return ('const', o.get('val'))
+        if o.get('k') in ('copy', 'move') and not o['p']['p']:
+            l = o['p']['l']
+            defs = [st for blk in blocks for st in blk['stmts'] if st['k'] == 'assign' and not st['lhs']['p'] and st['lhs']['l'] == l]
+            if len(defs) == 1 and defs[0]['rv']['k'] == 'use' and depth < 6:
+                return root(defs[0]['rv']['o'], depth + 1)
+            return ('local', l)
+        return ('?',)
+
+    ends = set()
+    for blk in blocks:
+        for st in blk['stmts']:
+            if st['k'] == 'assign' and st['rv']['k'] == 'agg' and str(st['rv'].get('name', '')).endswith('ops::Range') and len(st['rv'].get('fields', [])) == 2:
+                r = root(st['rv']['fields'][1])
+                if r[0] == 'local':
+                    ends.add(r[1])
+    preds = {}
+    for i, blk in enumerate(blocks):
+        for j in s.succs(i):
+            preds.setdefault(j, []).append(i)
+    for L in sorted(ends):
+        asg = [(i, st) for i, blk in enumerate(blocks) for st in blk['stmts'] if st['k'] == 'assign' and not st['lhs']['p'] and st['lhs']['l'] == L]
+        calls = [i for i, blk in enumerate(blocks) if blk['term']['k'] == 'call' and not blk['term']['dest']['p'] and blk['term']['dest']['l'] == L]
+        if len(asg) + len(calls) <= 1 and asg and asg[0][1]['rv']['k'] == 'use' and asg[0][1]['rv']['o'].get('k') == 'const':
+            c = asg[0][1]['rv']['o'].get('val')
+            ctx.oblige(1, sample='retry count _%d is the constant %s' % (L, c))
+            continue  # a constant count (possibly 0: that phase is simply switched off); the unbounded loop is M5's business
+        if len(asg) + len(calls) == 1 and asg and asg[0][1]['rv']['k'] == 'bin' and root(asg[0][1]['rv']['a'])[0] == 'const' and root(asg[0][1]['rv']['b'])[0] == 'const':
+            ctx.oblige(1, sample='retry count _%d is a constant expression' % L)
+            continue
+        ctx.instance('retry count _%d' % L)
+        for i in calls:
+            ctx.violate(SPIN, None, 'retry count _%d is the result of a call: it may be zero, and then the round never re-tests the condition' % L, at=blocks[i]['term'].get('at'), sig='retry-call')
+        for i, st in asg:
+            rv = st['rv']
+            ctx.oblige(1, sample='retry count _%d := %s' % (L, rv.get('op', rv['k'])))
+            ok = False
+            why = 'an expression that can be zero'
+            if rv['k'] == 'use':
+                r = root(rv['o'])
+                ok = (r[0] == 'const' and str(r[1]).isdigit() and int(r[1]) > 0) or r == ('local', L)
+                if r[0] == 'const' and not ok:
+                    why = 'the constant %s' % r[1]
+            elif rv['k'] == 'bin':
+                a, b_ = root(rv['a']), root(rv['b'])
+                op = rv['op']
+                selfish = a == ('local', L)
+                if selfish and op in ('Add', 'AddUnchecked', 'BitOr') and b_[0] == 'const':
+                    ok = True
+                elif selfish and op in ('Shl', 'ShlUnchecked', 'Mul', 'MulUnchecked') and b_[0] == 'const' and (op.startswith('Shl') or (str(b_[1]).isdigit() and int(b_[1]) >= 1)):
+                    # growth must be bounded, otherwise the count wraps to zero
+                    guarded = False
+                    for pb in preds.get(i, []):
+                        tt = blocks[pb]['term']
+                        if tt['k'] == 'switch':
+                            g = tt['o']
+                            if g.get('k') in ('copy', 'move') and not g['p']['p']:
+                                gd = [x for blk2 in blocks for x in blk2['stmts'] if x['k'] == 'assign' and not x['lhs']['p'] and x['lhs']['l'] == g['p']['l']]
+                                if len(gd) == 1 and gd[0]['rv']['k'] == 'bin' and gd[0]['rv']['op'] in ('Lt', 'Le') and root(gd[0]['rv']['a']) == ('local', L):
+                                    guarded = True
+                    ok = guarded
+                    if not guarded:
+                        why = 'unbounded growth (%s) that wraps around to zero' % op
+                else:
+                    why = '%s, which can yield zero' % op
+            if not ok:
+                ctx.violate(SPIN, None, 'the retry count _%d is assigned %s: once it is zero the inner loops are empty, the condition is never evaluated again and lock() spins for ever although the holder has left' % (L, why), at=st.get('at'), sig='retry-zero:%s' % rv.get('op', rv['k']))
 
 
 BYPASS = {
